@@ -96,8 +96,13 @@ func (g *c06Gen) relChain(depth int) []exprTok {
 		return c06Join(exprStr(g.pick(c06Strs)), exprOp(g.pick(append(c06Rel, c06Eq...))), exprStr(g.pick(c06Strs)))
 	}
 	ts := g.numChain(depth)
+	rhs := g.numChain(depth)
+	if g.r.Intn(4) == 0 {
+		// equal sides: the boundary between < and <=, > and >=
+		rhs = append([]exprTok{}, ts...)
+	}
 	ts = append(ts, exprOp(g.pick(c06Rel)))
-	return append(ts, g.numChain(depth)...)
+	return append(ts, rhs...)
 }
 
 // boolExpr: boolean typed expression
@@ -171,7 +176,7 @@ func (g *c06Gen) wildM(depth int, strs bool) []exprTok {
 
 func (c06) Gen(seed int64, tier string, emit func(any)) {
 	// exhaustive, seed independent: every ordered pair / triple of operators on fixed operands
-	vals := [][]string{{"7", "2", "3", "5"}, {"1.5", "-2", "0", "0.25"}}
+	vals := [][]string{{"7", "2", "3", "5"}, {"1.5", "-2", "0", "0.25"}, {"2", "2", "2", "2"}, {"1", "1.0", "0", "-0"}}
 	for _, v := range vals {
 		for _, o1 := range c06All {
 			for _, o2 := range c06All {
